@@ -192,9 +192,11 @@ impl PagedResults {
         (old(stream).ldap.controls matches Some(v) && exists|j: int| 0 <= j < v@.len() && is_paging_oid(#[trigger] v@[j])) ==> r is Err, //# C16.caller_supplied_paging_control_is_rejected
         r is Ok ==> (final(stream).asked@ matches Some(q)
             && q.base == base@ && q.scope == scope && q.filter == filter@ && q.attrs == attrs
-            && q.timeout == old(stream).ldap.timeout && q.search_opts == old(stream).ldap.search_opts
+            && q.search_opts == old(stream).ldap.search_opts
             && (q.controls matches Some(c) && c@ == (match old(stream).ldap.controls { Some(v) => v@, None => Seq::<RawControl>::empty() }).push(paged_raw(old(self).page_size, Seq::<u8>::empty())))), //# C02+C16.first_request_is_the_callers_search_plus_a_paging_control_with_the_page_size_and_an_empty_cookie
-        r is Ok ==> (final(self).ldap matches Some(l) && l.timeout == old(stream).ldap.timeout && l.search_opts == old(stream).ldap.search_opts
+        r is Ok ==> (final(stream).asked@ matches Some(q) && q.timeout == old(stream).ldap.timeout), //# C12+C16.the_pending_timeout_applies_to_the_first_page_request
+        r is Ok ==> (final(self).ldap matches Some(l) && l.timeout == old(stream).ldap.timeout), //# C12+C16.the_pending_timeout_is_saved_for_the_follow_up_pages
+        r is Ok ==> (final(self).ldap matches Some(l) && l.search_opts == old(stream).ldap.search_opts
             && (l.controls matches Some(c) && c@ == (match old(stream).ldap.controls { Some(v) => v@, None => Seq::<RawControl>::empty() }))
             && final(self).base@ == base@ && final(self).scope == scope && final(self).filter@ == filter@ && final(self).attrs == Some(attrs)
             && final(self).page_size == old(self).page_size), //# C16.search_parameters_and_modifiers_are_saved_for_the_follow_up_pages
